@@ -8,11 +8,13 @@ THEORIES = implcheck.THEORIES
 
 class Rabin(implcheck.ImplCheck):
     def classify(self, g, r, lp, res):
-        """Known-finding classes of Rabin blocking states (DESIGN §7):
-        F3  plus_one, environment dead end (state in cpre(empty)), _hold=none
+        """Known-finding class of Rabin blocking states (DESIGN §7):
         F12 stale persistence index: _hold = i although the state is outside
             y_{k,i} of its own basin level
-        Anything else is not a known finding."""
+        Anything else is not a known finding.  In particular a blocking state
+        with _hold = none is a violation: the class F3 (plus_one, environment
+        dead end, _hold = none) was repaired (fixes/F3.patch; Properties/C05.v
+        C05_dead_end_has_step, C05_blocks_only_when_hold_is_stale)."""
         what, path, detail = res
         if what != 'blocking':
             return None
@@ -24,11 +26,7 @@ class Rabin(implcheck.ImplCheck):
         base = ar.sidx(c, x, yE // M)
         n_holds = len(g['P'])
         h = st.get('_hold')
-        if h == n_holds:
-            if lp.plus_one and self._in_cpre_empty(lp, s):
-                return 'rabin_blocks_env_deadend_plus_one'
-            return None
-        if h is None or h > n_holds:
+        if h is None or h >= n_holds:
             return None
         levels = [k for k, z in enumerate(r['zk']) if z[base]]
         if not levels:
@@ -37,19 +35,6 @@ class Rabin(implcheck.ImplCheck):
         if not r['yki'][k][h][base]:
             return 'rabin_blocks_stale_hold'
         return None
-
-    @staticmethod
-    def _in_cpre_empty(lp, s):
-        """s in cpre(false): the component can make the environment's action
-        false (per the mode's quantifier order) while keeping its own."""
-        def phi(xp, yp):
-            j = xp * lp.ny + yp
-            return lp.S[s][j] and not lp.E[s][j]
-        if lp.moore:
-            return any(all(phi(xp, yp) for xp in range(lp.nx))
-                       for yp in range(lp.ny))
-        return all(any(phi(xp, yp) for yp in range(lp.ny))
-                   for xp in range(lp.nx))
 
 
 _c = Rabin(
